@@ -867,3 +867,49 @@ func ReencodeBlobsAsJSON(m protoreflect.Message) int {
 	walk(m)
 	return n
 }
+
+// AddEmptyListBlobs inserts, into every repeated event-blob field that holds at least one blob, an empty blob (no data;
+// with or without an encoding type) at position pos%(len+1): a page of raw history that happens to be empty. It returns
+// the number of blobs inserted.
+func AddEmptyListBlobs(m protoreflect.Message, pos int, typed bool) (n int) {
+	m.Range(func(fd protoreflect.FieldDescriptor, v protoreflect.Value) bool {
+		if fd.IsMap() {
+			if fd.MapValue().Message() != nil {
+				v.Map().Range(func(_ protoreflect.MapKey, mv protoreflect.Value) bool { n += AddEmptyListBlobs(mv.Message(), pos, typed); return true })
+			}
+			return true
+		}
+		if fd.Message() == nil {
+			return true
+		}
+		if fd.Message().FullName() == dataBlobName {
+			if fd.IsList() && EventBlobFields[string(fd.FullName())] && v.List().Len() > 0 {
+				l := v.List()
+				at := pos % (l.Len() + 1)
+				empty := &commonpb.DataBlob{}
+				if typed {
+					empty.EncodingType = enumspb.ENCODING_TYPE_PROTO3
+				}
+				// append, then rotate into place
+				l.Append(protoreflect.ValueOfMessage(empty.ProtoReflect()))
+				for i := l.Len() - 1; i > at; i-- {
+					a, b := l.Get(i-1).Message().Interface(), l.Get(i).Message().Interface()
+					ca, cb := proto.Clone(a), proto.Clone(b)
+					l.Set(i-1, protoreflect.ValueOfMessage(cb.ProtoReflect()))
+					l.Set(i, protoreflect.ValueOfMessage(ca.ProtoReflect()))
+				}
+				n++
+			}
+			return true
+		}
+		if fd.IsList() {
+			for i := 0; i < v.List().Len(); i++ {
+				n += AddEmptyListBlobs(v.List().Get(i).Message(), pos, typed)
+			}
+		} else {
+			n += AddEmptyListBlobs(v.Message(), pos, typed)
+		}
+		return true
+	})
+	return n
+}
